@@ -151,14 +151,14 @@ def main():
         "seed": a.seed, "shard": a.shard, "runs_range": [lo, hi], "hash_seed": os.environ.get("PYTHONHASHSEED"),
         "fuel": fuel, "caches_discovered": sorted(pristine_sizes),
         "runs": 0, "runs_faulted": 0, "runs_faultfree": 0, "runs_shimmed": 0,
-        "steps": 0, "probes": 0, "probes_faulted": 0, "probes_faultfree": 0, "agree": 0,
+        "steps": 0, "trivial_skipped": 0, "probes": 0, "probes_faulted": 0, "probes_faultfree": 0, "agree": 0,
         "inconclusive": {}, "diverge": {}, "diverge_faulted": 0, "diverge_faultfree": 0, "diverging_runs": 0,
         "faults_armed": {}, "faults_fired": {}, "faults_swallowed": 0, "retries_ok": 0,
         "natural_failures": {}, "ops": {}, "skipped": 0, "late_drift": 0,
         "clock_warm": 0, "clock_cold": 0, "cold_forks": 0, "cold_cached": 0,
         "shim_totals": {}, "rare": {}, "signatures": [], "nontrivial": [], "populations": [],
         "digests": [], "samples": [], "violations": [], "harness": [], "truncated": False,
-        "flavours": {}, "schedules": {},
+        "flavours": {}, "schedules": {}, "functions_entered": {}, "fault_sites": {},
     }
     sigs = set()
     nontrivial = set()
@@ -173,10 +173,11 @@ def main():
         steps = prog["steps"]
         cfg = prog["config"]
         envs = gen.make_envs(steps)
-        res = sh.evaluate_program(steps, envs, fuel=fuel, shims=cfg["shims"])
+        res = sh.evaluate_program(steps, envs, fuel=fuel, shims=cfg["shims"], skip_trivial=True)
         if res["harness"]:
             out["harness"].append({"run": run, "what": res["harness"]})
             continue
+        steps = res["steps"]  # echo steps concretised into literal parses
         digest = sh.event_log_digest(steps, res)
         out["digests"].append([run, digest])
         out["runs"] += 1
@@ -187,6 +188,8 @@ def main():
         out["steps"] += len(steps)
         warm = res["warm"]
         out["clock_warm"] += warm["clock"]
+        for fn, n in warm.get("entered", {}).items():
+            _add(out["functions_entered"], fn, n)
         any_fired = False
         for st, rec in zip(steps, warm["records"]):
             _add(out["ops"], st["op"])
@@ -199,6 +202,7 @@ def main():
                 if rec["fault"]["fired"]:
                     any_fired = True
                     _add(out["faults_fired"], rec["fault"]["exc"])
+                    _add(out["fault_sites"], rec["fault"].get("site") or "?")
                     if rec["status"] == "ok" and rec["attempts"] == 1:
                         out["faults_swallowed"] += 1
                     if rec["status"] == "ok" and rec["attempts"] == 2:
@@ -216,7 +220,11 @@ def main():
                 out["cold_forks"] += 1
                 out["clock_cold"] += p["cold_clock"]
             v = p["verdict"]
-            if v == "agree":
+            if v == "trivial":
+                out["probes"] -= 1
+                out["probes_faulted" if faulted else "probes_faultfree"] -= 1
+                out["trivial_skipped"] += 1
+            elif v == "agree":
                 out["agree"] += 1
             elif v == "inconclusive":
                 _add(out["inconclusive"], p["why"])
